@@ -365,7 +365,36 @@ theorem C18_template_output_cases (hole : HoleFn) (ps : List Piece) (hp : ∀ p 
   rw [C18_template_output hole ps hp]
   exact ⟨fun out h => mapM_pieceOut_ok hole out ps h, fun h => mapM_pieceOut_err hole ps h⟩
 
+/-- **Templates whose text contains braces.**  The round trip and the produced text also when the
+    copied text contains `{` (C / JSON / LaTeX templates): it suffices that every copied `{` is not
+    followed — after any blanks — by another `{` in the rendered rest (`PiecesOK`; a copied character
+    other than `{` is unconstrained, so this contains `C18_template` and `C18_template_output`).
+    Not covered: a copied `{` followed by `{` that still fails to form a hole (`{{}`, `{{a}x`), which
+    the code copies as well. -/
+theorem C18_template_braces (hole : HoleFn) (ps : List Piece) (hp : PiecesOK ps) :
+    scanTemplate ((ps.flatMap renderPieceS).length + 1) (ps.flatMap renderPieceS) = ps ∧
+    solveTemplate hole (ps.flatMap renderPieceS) = (ps.mapM (pieceOut hole)).map List.flatten := by
+  have h := scan_renderB ps hp _ (Nat.lt_succ_self _)
+  refine ⟨h, ?_⟩
+  unfold solveTemplate
+  rw [h, assemble_eq]
+
+/-- **Text without holes is returned unchanged**: a text in which no `{` is followed (after blanks)
+    by another `{` is the result of solving it, whatever the environment. -/
+theorem C18_template_plain (hole : HoleFn) (s : List Char) (h : PlainOK s) :
+    solveTemplate hole s = some s := by
+  have := (C18_template_braces hole (s.map Piece.text) (plain_piecesOK s h)).2
+  rw [plain_render, plain_out] at this
+  exact this
+
 /-! Non-vacuity: concrete well-formed trees / hypotheses. -/
+/-- `"{ }{{?a}}"`: a copied `{` (followed by a blank and `}`), then a hole -/
+example : PiecesOK [.text '{', .text ' ', .text '}', .hole "?a".toList none none] := by
+  refine ⟨Or.inr (by decide), Or.inl (by decide), Or.inl (by decide), ?_, trivial⟩
+  exact ⟨by decide, by decide, fun l hl => (by cases hl), fun f hf => (by cases hf)⟩
+/-- `"f(x){ return {x}; }"` -/
+example : PlainOK ['f', '(', 'x', ')', '{', ' ', 'r', 'e', 't', 'u', 'r', 'n', ' ', '{', 'x', '}', ';', ' ', '}'] := by
+  decide
 /-- `"x={{?v}[1]:.2f};"` with the hole formatted as `2.00` gives `"x=2.00;"` -/
 example : solveTemplate (fun p sl fm => if p = "?v".toList ∧ sl = some [(some 1, some 1)] ∧ fm = some ":.2f".toList
       then some "2.00".toList else none) "x={{?v}[1]:.2f};".toList = some "x=2.00;".toList := by
